@@ -278,7 +278,7 @@ impl Ctx {
         let base = if self.thorough() { thorough } else { quick };
         match self.scale {
             Scale::Full => base,
-            Scale::San => (quick / 8).max(8),
+            Scale::San => (quick / 3).max(8),
             Scale::Miri => (quick / 2000).clamp(4, 60),
         }
     }
@@ -288,9 +288,21 @@ impl Ctx {
     pub fn dn(&self, n: u64) -> u64 {
         match self.scale {
             Scale::Full => n,
-            Scale::San => (n / 6).max(4).min(n),
+            Scale::San => (n / 2).max(4).min(n),
             Scale::Miri => n.min(5),
         }
+    }
+
+    /// Like `size`, with an explicit case count for the Miri re-run.
+    pub fn size3(&self, quick: u64, thorough: u64, miri: u64) -> u64 {
+        if self.scale == Scale::Miri {
+            miri
+        } else {
+            self.size(quick, thorough)
+        }
+    }
+    pub fn miri(&self) -> bool {
+        self.scale == Scale::Miri
     }
 
     pub fn report(&self, v: Violation) {
